@@ -25,6 +25,12 @@ pub fn plan(tier: &str, seed: u64) -> Vec<Batch> {
             v.push(Batch { check: "C07".into(), phase: "menu".into(), uni, seed, lo: i * PER_BATCH, hi: (i + 1) * PER_BATCH, fresh: false, tier: tier.into(), extra: Value::Null });
         }
     }
+    // creation flags on every kind of final component, with every decoration: enumerated
+    for uni in [UniCfg::k(), UniCfg::e()] {
+        for ctor in 0..3u64 {
+            v.push(Batch { check: "C07".into(), phase: "creation".into(), uni: uni.clone(), seed, lo: 2_000_000 + ctor * 1000, hi: 2_000_000 + ctor * 1000 + 1, fresh: false, tier: tier.into(), extra: json!({"ctor": ctor}) });
+        }
+    }
     // every entry of the live procfs (root, self, self/fd, self/ns, self/task/<tid>, part of self/net)
     for uni in [UniCfg::k(), UniCfg::e()] {
         for ctor in 0..3u64 {
@@ -72,6 +78,53 @@ pub fn live_entries(tid: i32) -> Vec<(Base, String)> {
         out.push((Base::ThreadSelf, e));
     }
     out
+}
+
+/// creation flags (and the raw __O_TMPFILE bit, which becomes O_TMPFILE as soon as
+/// somebody adds O_DIRECTORY) x final components x decorations x {open, open_follow}
+pub fn creation_cases(uni: &UniCfg, ctor: u64) -> Vec<Case> {
+    const RAW_TMPFILE: i32 = 0o20000000;
+    let flagsets = [
+        libc::O_TMPFILE | libc::O_RDWR,
+        libc::O_TMPFILE | libc::O_WRONLY,
+        RAW_TMPFILE | libc::O_RDWR,
+        RAW_TMPFILE | libc::O_WRONLY,
+        RAW_TMPFILE | libc::O_RDWR | libc::O_NOFOLLOW,
+        libc::O_CREAT | libc::O_RDWR,
+        libc::O_CREAT | libc::O_EXCL | libc::O_WRONLY,
+        libc::O_EXCL | libc::O_RDONLY,
+    ];
+    let mut lookups: Vec<(Base, String, i32, bool)> = Vec::new();
+    for (base, ent) in [(Base::SelfP, "cwd"), (Base::SelfP, "root"), (Base::SelfP, "fd/{RFD}"), (Base::SelfP, "exe"), (Base::SelfP, "status"), (Base::SelfP, "fd"), (Base::ThreadSelf, "cwd"), (Base::Root, "self"), (Base::Root, "sys"), (Base::SelfP, "newfile")] {
+        for deco in ["", "/", "/.", "//", "/newfile"] {
+            for fl in flagsets {
+                for follow in [false, true] {
+                    lookups.push((base, format!("{ent}{deco}"), fl, follow));
+                }
+            }
+        }
+    }
+    let mut cases = Vec::new();
+    for chunk in lookups.chunks(40) {
+        let mut c = Case::new("C07", "creation", uni.clone());
+        let (handle, mut ops, cname) = match ctor {
+            0 => (None, vec![], "global"),
+            1 => (Some(0), vec![OpSpec::new(Op::ProcNew { ctor: crate::ops::ProcCtor::New, store: 0 })], "new"),
+            _ => (Some(0), vec![OpSpec::new(Op::ProcNew { ctor: crate::ops::ProcCtor::FromFsopen, store: 0 })], "fsopen-unmasked"),
+        };
+        let facade = if handle.is_none() { Facade::C } else { Facade::Rust };
+        ops.push(OpSpec::new(Op::ProcOpen { handle, base: Base::Root, path: ".".into(), flags: libc::O_PATH | libc::O_DIRECTORY, follow: false }).facade(facade));
+        let mut meta = Vec::new();
+        for (base, p, fl, follow) in chunk {
+            ops.push(OpSpec::new(Op::ProcOpen { handle, base: *base, path: p.clone(), flags: *fl, follow: *follow }).facade(facade));
+            meta.push(json!({"decorated": p.contains('/')}));
+        }
+        c.world = Some(warm_world());
+        c.jobs = vec![ops];
+        c.extra = json!({"ctor": cname, "meta": meta});
+        cases.push(c);
+    }
+    cases
 }
 
 pub fn live_cases(uni: &UniCfg, ctor: u64, tid: i32) -> Vec<Case> {
@@ -218,7 +271,8 @@ impl Hooks for H {
             fail("panic", m.clone());
             return;
         }
-        let creation = flags & (libc::O_CREAT | libc::O_EXCL) != 0 || flags & libc::O_TMPFILE == libc::O_TMPFILE;
+        // (0o20000000 is the raw __O_TMPFILE bit: alone the kernel rejects it; if the library adds O_DIRECTORY it becomes O_TMPFILE)
+        let creation = flags & (libc::O_CREAT | libc::O_EXCL) != 0 || flags & 0o20000000 != 0;
         let prefix = procgen::base_prefix(base, tid);
         let (inner, last, dotdot) = procgen::walk_kinds(pristine, &prefix, &path);
         let decorated = self.meta.get(rec.idx - self.first_lookup).map(|m| m["decorated"].as_bool().unwrap_or(false)).unwrap_or(false);
@@ -361,7 +415,7 @@ impl Hooks for H {
 }
 
 pub fn eval_case(u: &mut Universe, case0: &Case, idx: u64, st: &mut Stats, sample: bool) -> bool {
-    let live = case0.phase == "live";
+    let live = case0.phase == "live" || case0.phase == "creation";
     let tid = u_tid(u);
     let case = instantiate(case0, tid);
     let first_lookup = case.jobs[0].iter().position(|o| matches!(o.op, Op::ProcOpen { .. })).unwrap_or(0) + 1;
@@ -410,6 +464,23 @@ pub fn u_tid(u: &Universe) -> i32 {
 pub fn run(u: &mut Universe, b: &Batch, st: &mut Stats) {
     if let Err(e) = warm_up(u) {
         st.harness_errors.push(format!("warm-up: {e}"));
+        return;
+    }
+    if b.phase == "creation" {
+        let cases = creation_cases(&b.uni, b.extra["ctor"].as_u64().unwrap_or(0));
+        // nothing may appear in the caller's working directory or the world
+        let before = (sys::listdir(b"/mnt/w").map(|v| v.len()).unwrap_or(0), sys::listdir(b".").map(|v| v.len()).unwrap_or(0));
+        for (i, case) in cases.iter().enumerate() {
+            coord::progress(b.lo);
+            st.count("creation.lookups", case.extra["meta"].as_array().map(|a| a.len() as u64).unwrap_or(0));
+            if !eval_case(u, case, b.lo + i as u64, st, false) || u.poisoned {
+                return;
+            }
+        }
+        let after = (sys::listdir(b"/mnt/w").map(|v| v.len()).unwrap_or(0), sys::listdir(b".").map(|v| v.len()).unwrap_or(0));
+        if before != after {
+            st.harness_errors.push(format!("creation phase: directory entry counts changed {before:?} -> {after:?}"));
+        }
         return;
     }
     if b.phase == "live" {
